@@ -24,6 +24,10 @@ DEFAULT_PROFILE = {
     "unlock_after_gac": False,
     "max_requests": 6,
     "nonfifo": 0.0,
+    "valid_bias": 0.8,        # how often a cancelled id is a live one
+    "map_bias": 0.5,          # map family vs. apply (TaskPool)
+    "named": 0.4,             # how often a request carries an explicit group name
+    "raise_bias": 1.0,        # multiplier on the frequency of raising user code
 }
 
 
@@ -60,8 +64,9 @@ class RandomSource:
     def _gname_opt(self, run):
         r = self.rng
         x = r.random()
-        if x < 0.6:
+        if x < 1 - self.p["named"]:
             return "-"
+        x = 0.6 + 0.4 * r.random()
         if x < 0.85:
             return f"U{r.randint(0, 3)}"
         if x < 0.93 and run.known:
@@ -70,24 +75,27 @@ class RandomSource:
 
     def _spawn(self, run):
         r = self.rng
-        bad = "1" if self.p["raises"] and r.random() < 0.08 else "0"
+        p_map = self.p["map_bias"]
+        rb = self.p["raise_bias"]
+        bad = "1" if self.p["raises"] and r.random() < 0.08 * rb else "0"
         nonco = "1" if r.random() < 0.03 else "0"
         if run.cfg["kind"] == "simple":
             return f"start num={r.choice([0, 1, 1, 2, 3, 5])}"
-        if r.random() < 0.5:
+        if r.random() >= p_map:
             return (f"apply num={r.choice([0, 1, 1, 2, 3, 5, 9])} bad={bad} nonco={nonco} "
                     f"w={self._w()} ecb={self._cb()} ccb={self._cb()} g={self._gname_opt(run)}")
         n = r.choice([0, 1, 2, 3, 4, 6, 8])
         els = []
         for _ in range(n):
-            b = "1" if self.p["raises"] and r.random() < 0.12 else "0"
+            b = "1" if self.p["raises"] and r.random() < 0.12 * rb else "0"
             els.append(b + self._w())
         nc = r.choice([1, 1, 2, 3, 7]) if r.random() > 0.04 else 0
         return (f"map stars={r.randint(0, 2)} els={','.join(els) or '-'} nc={nc} nonco={nonco} "
                 f"ecb={self._cb()} ccb={self._cb()} g={self._gname_opt(run)}")
 
-    def _ids(self, run, valid_bias=0.8):
+    def _ids(self, run):
         r = self.rng
+        valid_bias = self.p["valid_bias"]
         live = [t for t, g in run.gates.items() if not g.done()]
         n_created = len([k for k in run.ref_task if k[0] == "P"])
         k = r.choice([1, 1, 1, 2, 3])
@@ -140,7 +148,7 @@ class RandomSource:
             add(p["spawn"] * (2 if nreq == 0 else 1), self._spawn(run))
         for t, g in run.gates.items():
             if not g.done():
-                add(p["finish"] / 2, f"finish tid={t} how={'x' if p['raises'] and r.random() < 0.25 else 'r'}")
+                add(p["finish"] / 2, f"finish tid={t} how={'x' if p['raises'] and r.random() < 0.25 * p['raise_bias'] else 'r'}")
         for t, g in run.cbgates.items():
             if not g.done():
                 add(p["relcb"], f"relcb tid={t}")
